@@ -389,7 +389,9 @@ class SSHChannel(Generic[AnyStr], SSHPacketHandler):
         else:
             decoded_data = cast(AnyStr, data)
 
-        if self._session is not None:
+        # A packet holding only part of a multi-byte character decodes to
+        # an empty string, which must not look like an end of file
+        if decoded_data and self._session is not None:
             self._session.data_received(decoded_data, datatype)
 
     def _accept_data(self, data: bytes, datatype: DataType = None) -> None:
